@@ -102,7 +102,7 @@ def run(ctx):
         c, s = keep[len(keep) // 2]
         ctx.sample(dict(key=key_of(c), results=[x['res'][:2] for x in s],
                         final_lengths=[r['shape'][0] for r in s[-1]['ref']]))
-    bad = ctx.coq_check('c04', raglib.PRELUDE, terms, shard=120)
+    bad = ctx.coq_check('c04', raglib.PRELUDE, terms, shard=60)
     if bad is None:
         ctx.model_ok = False
         return
